@@ -237,7 +237,7 @@ class SCSICommand(metaclass=ExMETA):
                     _bm >>= 8
                     _num += 1
                 _need = max(_need, _val[1] + _num)
-            result = bytearray(next(n for n in (6, 10, 12, 16) if _need < n))
+            result = bytearray(next(n for n in (6, 10, 12, 16) if _need <= n))
         encode_dict(cdb, cls._cdb_bits, result)
         return result
 
